@@ -92,6 +92,12 @@ func judge(out *pipe.Outcome, ix *pipe.Index) pipe.Verdict {
 		}
 	}
 	v.AddJudged("acks_in_order_", j)
+	for i := range out.Evs {
+		e := &out.Evs[i]
+		if e.Kind == rig.KDstAck && e.Role == "dst" && len(e.Acks) > 1 && out.Sc.Engine == "v1" {
+			v.Stats["default_engine_destination_responses_carrying_several_acks"]++
+		}
+	}
 	v.Nontrivial = j.Obligations >= 5
 	v.SigExtra = pipe.CompletionOrderClass(out.Evs)
 	v.Sets = map[string][]string{"completion_orders": {pipe.CompletionOrderSig(out.Evs)}}
